@@ -8,6 +8,9 @@
 package loadsim
 
 import (
+	"bytes"
+	"compress/zlib"
+	"encoding/binary"
 	"encoding/hex"
 	"encoding/json"
 	"mltwist/internal/consoleui/verifsim/core"
@@ -352,6 +355,67 @@ func genDesc(r *core.Rand) *elfref.Desc {
 	return d
 }
 
+// addCompressedSection appends an executable PROGBITS section that carries
+// the SHF_COMPRESSED flag: a compression header (zlib, announced size) and a
+// zlib stream of a few instruction words - well-formed, with a wrong
+// announced size, or with garbage instead of the stream. Only start-up
+// totality (C26) is judged on such images: what the code image of a
+// compressed section is supposed to be is debug/elf's business, the reference
+// reader of C20 does not model it.
+func addCompressedSection(r *core.Rand, d *elfref.Desc) {
+	const shfCompressed = 0x800
+	n := 4 * r.Range(1, 8)
+	raw := r.Bytes(n)
+	if r.Chance(2, 3) {
+		raw = nil
+		for _, pi := range rvref.RandomProgram(r, 0x50000, n/4, rvref.ProgOpts{Regs: 3}) {
+			raw = append(raw, byte(pi.Word), byte(pi.Word>>8), byte(pi.Word>>16), byte(pi.Word>>24))
+		}
+	}
+	var z bytes.Buffer
+	zw := zlib.NewWriter(&z)
+	zw.Write(raw)
+	zw.Close()
+	stream := z.Bytes()
+	announced := uint64(len(raw))
+	switch r.Intn(6) {
+	case 0:
+		announced += uint64(r.Range(1, 64)) // more than the stream holds
+	case 1:
+		announced = uint64(1) << uint(r.Range(20, 40)) // absurd
+	case 2:
+		stream = r.Bytes(len(stream)) // no zlib stream at all
+	}
+	bo := binary.ByteOrder(binary.LittleEndian)
+	if d.Data == 2 {
+		bo = binary.BigEndian
+	}
+	var hdr []byte
+	if d.Class == 2 {
+		hdr = make([]byte, 24)
+		bo.PutUint32(hdr[0:], 1) // ELFCOMPRESS_ZLIB
+		bo.PutUint64(hdr[8:], announced)
+		bo.PutUint64(hdr[16:], 4)
+	} else {
+		hdr = make([]byte, 12)
+		bo.PutUint32(hdr[0:], 1)
+		bo.PutUint32(hdr[4:], uint32(announced))
+		bo.PutUint32(hdr[8:], 4)
+	}
+	body := append(hdr, stream...)
+	// behind everything the image has so far
+	off := uint64(d.Size)
+	d.Blobs = append(d.Blobs, elfref.Blob{Off: off, Hex: hex.EncodeToString(body)})
+	flags := uint64(elfref.SHFExec | shfCompressed)
+	if r.Bool() {
+		flags |= elfref.SHFAlloc
+	}
+	d.Secs = append(d.Secs, elfref.Sec{Name: ".ztext", Type: elfref.SHTProgbits, Flags: flags, Addr: 0x50000, Off: off, Size: uint64(len(body))})
+	// the section header table moves behind the new bytes (one more entry)
+	d.Shoff = align(off+uint64(len(body)), 8)
+	d.Size = int(d.Shoff) + (len(d.Secs)+2)*64 + r.Intn(16)
+}
+
 func (e *Engine) Generate(r *core.Rand, prop string, tier string) core.Trace {
 	t := &Trace{}
 	faulty := r.Chance(2, 3) // fault-free and faulty configurations are separate runs
@@ -383,6 +447,9 @@ func (e *Engine) Generate(r *core.Rand, prop string, tier string) core.Trace {
 		}
 	}
 	t.Desc = genDesc(r)
+	if prop == "C26" && r.Chance(1, 10) {
+		addCompressedSection(r, t.Desc)
+	}
 	img := elfref.Build(t.Desc)
 	size := uint64(len(img))
 	if faulty {
